@@ -294,6 +294,12 @@ OutsFind(T, c, t, s, k, peek, wc) ==
 
 \* ut_map / ut_set purge every expired entry at the start of every call, also of an empty range.
 RangeStart(c, s) == IF c.kind \in UtKinds THEN [s EXCEPT !.size = NLive(s), !.unr = {}] ELSE s
+\* tlru / utlru: a range call (also an empty one) may discard expired entries before it looks at
+\* its elements, like any other call; the fold starts from every size that leaves possible.
+RangeStarts(c, s) ==
+  IF c.kind \in TtlCaches
+  THEN {NormUnr([s EXCEPT !.size = z]) : z \in NLive(s)..s.size}
+  ELSE {RangeStart(c, s)}
 
 RECURSIVE FoldInsert(_, _, _, _, _, _, _)
 FoldInsert(T, c, t, S, kv, a, i) ==
